@@ -476,3 +476,40 @@ def r14(ctx, R):
     from . import c06
     c06.r6(ctx, R)
 
+
+
+def _stage_table(fn):
+    """methods registered in a stage dispatcher: values `self.X` of a dict literal assigned to `switcher`"""
+    out = []
+    for s in ast.walk(fn):
+        if isinstance(s, ast.Assign) and isinstance(s.value, ast.Dict) and any(isinstance(t, ast.Name) and t.id == 'switcher' for t in s.targets):
+            for v in s.value.values:
+                if isinstance(v, ast.Attribute) and isinstance(v.value, ast.Name) and v.value.id == 'self':
+                    out.append(v.attr)
+    return out
+
+
+@rule('C07', 'C07.R15', 'stages are entered through the dispatcher only: a method registered in the stage table of a controller (spread, predict, it_check, it_fine, it_down, it_coarse, it_up, it_ParaDiag) is never CALLED from another method of the class - a predictor that runs `self.it_fine(..)` fires sweep callbacks between pre_predict and post_predict, communicates and flips the stage outside the grammar start (predict)? (iteration-start (sweep)+ iteration-end)* end', floor=17)
+def r15(ctx, R):
+    repo = ctx.repo
+    CCD = 'pySDC/implementations/controller_classes/'
+    n = 0
+    for rel, cn, disp in ((CCD + 'controller_nonMPI.py', 'controller_nonMPI', 'pfasst'), (CCD + 'controller_MPI.py', 'controller_MPI', 'pfasst'), (CCD + 'controller_ParaDiag_nonMPI.py', 'controller_ParaDiag_nonMPI', 'ParaDiag')):
+        ci = repo.cls(rel, cn)
+        if disp not in ci.methods:
+            raise AnalysisError(f'{cn}.{disp}: the stage dispatcher is gone - re-confirm C07.R15')
+        stages = _stage_table(ci.methods[disp])
+        if len(stages) < 3:
+            raise AnalysisError(f'{cn}.{disp}: stage table not recognised ({stages})')
+        for st in stages:
+            n += 1
+            callers = []
+            for mname, fn in ci.methods.items():
+                for c in ast.walk(fn):
+                    if isinstance(c, ast.Call) and isinstance(c.func, ast.Attribute) and c.func.attr == st and isinstance(c.func.value, (ast.Name, ast.Call)) and ast.unparse(c.func.value) in ('self', 'super()'):
+                        callers.append(f'{mname}:{c.lineno}')
+            w = f'{rel}:{cn}.{st}'
+            R.fn(w)
+            R.check(not callers, f'{cn}.{st} :: entered through the stage table of {disp}() only', w, 'no direct call self.<stage>(..) in the class', callers)
+    if n < 17:
+        raise AnalysisError(f'C07.R15: only {n} registered stages found')
